@@ -1,12 +1,14 @@
 package main
 
 import (
+	"encoding/json"
 	"errors"
 	"fmt"
 	"math/rand"
 	"runtime"
 	"sync"
 	"sync/atomic"
+	"time"
 
 	vmcommon "github.com/ElrondNetwork/elrond-vm-common"
 	"github.com/ElrondNetwork/elrond-vm-common/builtInFunctions"
@@ -460,14 +462,103 @@ func directChecks(scenario string, p *program, h []record) string {
 	return ""
 }
 
+// linJob is one executed round waiting for its verdict.
+type linJob struct {
+	obj, sc    string
+	round, rep int
+	rs         int64
+	p          *program
+	h          []record
+	res        checkResult
+}
+
+// checkBatch checks the histories of a batch in parallel. The rounds themselves are executed one
+// after the other on an otherwise idle machine (so that the released goroutines really overlap);
+// only the searches, which are sequential CPU work, are spread over the cores.
+func (r *run) checkBatch(jobs []*linJob) {
+	workers := runtime.GOMAXPROCS(0)
+	if workers > len(jobs) {
+		workers = len(jobs)
+	}
+	var next int32 = -1
+	var wg sync.WaitGroup
+	for w := 0; w < workers; w++ {
+		wg.Add(1)
+		go func() {
+			defer wg.Done()
+			for {
+				i := int(atomic.AddInt32(&next, 1))
+				if i >= len(jobs) {
+					return
+				}
+				jobs[i].res = checkHistory(jobs[i].h, r.paranoid)
+			}
+		}()
+	}
+	wg.Wait()
+}
+
 func (r *run) sectionMapLin() error {
 	const section = "map-linearizability"
+	const batchSize = 128
 	maxG := r.goroutines
 	if maxG > 16 {
 		maxG = 16
 	}
 	if maxG < 2 {
 		maxG = 2
+	}
+	sampled := map[string]bool{}
+	var batch []*linJob
+	flush := func() error {
+		t0 := time.Now()
+		r.checkBatch(batch)
+		r.out.SectionSeconds[section+"/checking"] += time.Since(t0).Seconds()
+		for _, j := range batch {
+			name := j.obj + "/" + j.sc
+			if j.res.err != nil {
+				js, _ := json.Marshal(renderHistory(j.h))
+				return fmt.Errorf("%s round %d: %v\n%s", name, j.round, j.res.err, js)
+			}
+			r.out.HistoriesChecked++
+			r.out.HistoryOps += len(j.h)
+			if j.res.porc != linUnknown {
+				r.out.HistoriesPorcupine++
+			}
+			what := ""
+			switch j.res.v {
+			case linIllegal:
+				what = "history is not linearizable w.r.t. the sequential map specification"
+			case linUnknown:
+				r.out.HistoriesUnknown++
+			}
+			if d := directChecks(j.sc, j.p, j.h); d != "" {
+				if what != "" {
+					what += "; "
+				}
+				what += d
+			}
+			if what != "" {
+				r.out.IllegalHistories++
+				if r.out.IllegalHistories > maxFindingsPerSection {
+					continue
+				}
+				r.addFinding(section, name+": "+what, map[string]interface{}{
+					"seed": r.seed, "section": section, "scenario": name, "round": j.round, "repetition": j.rep,
+					"round_seed": j.rs, "goroutines": len(j.p.Par), "history": renderHistory(j.h),
+					"verdicts": map[string]string{"own": j.res.own.String(), "porcupine": j.res.porc.String()},
+					"rerun": fmt.Sprintf("bin/conc -seed %d -sections 1 -scenario %s -round %d -repeat 500", r.seed, name, j.round),
+				})
+			} else if !sampled[name] {
+				sampled[name] = true
+				r.addSample(map[string]interface{}{
+					"section": section, "scenario": name, "round": j.round, "verdict": j.res.v.String(),
+					"history": renderHistory(j.h),
+				})
+			}
+		}
+		batch = batch[:0]
+		return nil
 	}
 	for _, obj := range objects {
 		for _, sc := range scenarioNames {
@@ -484,44 +575,19 @@ func (r *run) sectionMapLin() error {
 					ut := obj.mk()
 					p := genProgram(rand.New(rand.NewSource(rs)), sc, maxG, ut)
 					h := runProgram(p, ut)
-					v, err := checkHistory(h)
-					if err != nil {
-						return fmt.Errorf("%s/%s round %d: %v\n%v", obj.name, sc, round, err, renderHistory(h))
-					}
-					r.out.HistoriesChecked++
-					r.out.HistoryOps += len(h)
-					what := ""
-					switch v {
-					case linIllegal:
-						what = "history is not linearizable w.r.t. the sequential map specification"
-					case linUnknown:
-						r.out.HistoriesUnknown++
-					}
-					if d := directChecks(sc, p, h); d != "" {
-						if what != "" {
-							what += "; "
-						}
-						what += d
-					}
-					if what != "" {
-						r.addFinding(section, obj.name+"/"+sc+": "+what, map[string]interface{}{
-							"seed": r.seed, "section": section, "scenario": obj.name + "/" + sc, "round": round,
-							"round_seed": rs, "goroutines": len(p.Par), "history": renderHistory(h),
-							"rerun": fmt.Sprintf("bin/conc -seed %d -sections 1 -scenario %s/%s -round %d -repeat 200", r.seed, obj.name, sc, round),
-						})
-					} else if round == first && rep == 0 {
-						r.addSample(map[string]interface{}{
-							"section": section, "scenario": obj.name + "/" + sc, "round": round, "verdict": v.String(),
-							"history": renderHistory(h),
-						})
-					}
+					batch = append(batch, &linJob{obj: obj.name, sc: sc, round: round, rep: rep, rs: rs, p: p, h: h})
 
 					// the same program once more, unstamped and repeated, for the race detector
-					ut2 := obj.mk()
-					r.out.HammerOps += hammer(p, ut2, 4)
+					r.out.HammerOps += hammer(p, obj.mk(), 4)
+
+					if len(batch) >= batchSize {
+						if err := flush(); err != nil {
+							return err
+						}
+					}
 				}
 			}
 		}
 	}
-	return nil
+	return flush()
 }
